@@ -247,16 +247,23 @@ const RUST_KEYWORDS: &[&str] = &[
 ];
 
 fn g_rust_ident() -> BS<String> {
-    "[a-zA-Z][a-zA-Z0-9_]{0,8}"
-        .prop_map(|s| if RUST_KEYWORDS.contains(&s.as_str()) || s == "t" || s == "f" || s == "nil" { format!("{}_x", s) } else { s })
-        .boxed()
+    prop_oneof![
+        12 => "[a-zA-Z][a-zA-Z0-9_]{0,8}".prop_map(|s| if RUST_KEYWORDS.contains(&s.as_str()) { format!("{}_x", s) } else { s }),
+        // the names of the hash constants are ordinary symbols without the hash
+        1 => proptest::sample::select(vec!["t", "f", "nil", "T", "n", "tt"]).prop_map(|s| s.to_string()),
+    ]
+    .boxed()
 }
 
 fn g_quoted_name() -> BS<String> {
-    g_ident(IdentRules::default())
-        .prop_map(|s| s.chars().filter(|c| *c != '"' && *c != '\\' && !c.is_control()).collect::<String>())
-        .prop_map(|s| if s.is_empty() { "kebab-name".to_string() } else { s })
-        .boxed()
+    prop_oneof![
+        10 => g_ident(IdentRules::default())
+            .prop_map(|s| s.chars().filter(|c| *c != '"' && *c != '\\' && !c.is_control()).collect::<String>())
+            .prop_map(|s| if s.is_empty() { "kebab-name".to_string() } else { s }),
+        // a quoted symbol is a symbol whatever its name
+        1 => proptest::sample::select(vec!["t", "f", "nil", "true", "false", "quote", "unquote"]).prop_map(|s| s.to_string()),
+    ]
+    .boxed()
 }
 
 fn g_unquote() -> BS<M> {
